@@ -988,6 +988,11 @@ func (ctx *Context) evaluate() {
 				ctx.Error = errors.New("奖惩骰数量必须为整数")
 				return
 			}
+			if diceNum < 0 {
+				// a negative count would also be subtracted from the op counter
+				ctx.Error = errors.New("奖惩骰数量不能为负数")
+				return
+			}
 
 			if numOpCountAdd(diceNum) {
 				return
